@@ -1,7 +1,7 @@
 (** * C10 runner: a family of outlines (base, cyclic shifts, reversals, collinear enrichments, rigidly
     moved copies), each built through push* / close on the Loop model (primitive floats); class,
     stored vertices, normal, area, perimeter and centroid compared bit for bit. *)
-From G3 Require Import Run.Harness Model.Vec Model.Segment Model.Loop Model.Polygon Run.C04.
+From G3 Require Import Run.Harness Run.FastNum32 Model.Vec Model.Segment Model.Loop Model.Polygon Run.C04.
 
 Section WithInstance.
 Context {NK : Num float}.
@@ -59,3 +59,7 @@ End WithInstance.
 Module C10.
   Definition run := run_cases (@chk NumF).
 End C10.
+(** the f32 build (`--features float`): the same runner on the binary32 instance [NumF32fast] (= [NumF32], Run/FastNum32Proof.v) *)
+Module C10f32.
+  Definition run := run_cases (@chk NumF32fast).
+End C10f32.
